@@ -372,8 +372,18 @@ func oneCase(stratum string) func(k *vlib.Case) {
 
 func run(c *vlib.Ctx) {
 	c.Rule("case = (trickle.Layout base, 1 append; stratum multi: 2-5 successive appends, each result validated before it becomes the next base). width {2..6,8,11,16} x chunker {size-1..512, rabin-min-avg-max} x raw/dag-pb leaves x CID builder; base and appended chunk counts 0..300 (wide: 600, multi: 120; small: base+appended <= 2*width, a stratum the known defect cannot reach) at trickle layer boundaries ±1 or random, partial last leaves. distinct = FNV of config+lengths+resulting shapes; non-trivial = a non-empty append onto a non-empty base yields a DAG of height >= 3.")
-	c.Cases("pairs", c.N(900, 6000), oneCase("pairs"))
-	c.Cases("small", c.N(200, 1200), oneCase("small"))
-	c.Cases("wide", c.N(150, 1000), oneCase("wide"))
-	c.Cases("multi", c.N(250, 1600), oneCase("multi"))
+	// thorough counts are for a build without -race; under -race the tier runs 1/5 of them.
+	n := func(q, t int) int {
+		if raceEnabled {
+			t /= 5
+			if t < q {
+				t = q
+			}
+		}
+		return c.N(q, t)
+	}
+	c.Cases("pairs", n(900, 18000), oneCase("pairs"))
+	c.Cases("small", n(200, 4000), oneCase("small"))
+	c.Cases("wide", n(150, 3000), oneCase("wide"))
+	c.Cases("multi", n(250, 5000), oneCase("multi"))
 }
